@@ -109,7 +109,7 @@ Proof.
   { apply Rplus_le_le_0_compat; apply Rmult_le_pos; try apply pow2_ge_0; try exact Hm;
       repeat apply Rplus_le_le_0_compat; apply pow2_ge_0. }
   rewrite <- K in Hr.
-  assert (H4 : 0 < u0^2 * u0^2) by (assert (0 < u0^2) by (apply pow2_pos; exact Hu); nra).
+  assert (H4 : 0 < u0^2 * u0^2) by (apply Rmult_lt_0_compat; apply pow2_pos; exact Hu).
   assert (E : u0^2 * Gaa * (u0^2 * Gbb) - (u0^2 * Gab)^2 = (u0^2 * u0^2) * (Gaa * Gbb - Gab^2)) by ring.
   rewrite E in Hr.
   assert (0 <= Gaa * Gbb - Gab^2); [|lra].
@@ -308,7 +308,7 @@ Proof.
   assert (ALL : forallb poly_ok args = true ->
                 (fix all (l : list expr) : Prop := match l with [] => True | x :: l' => wdR ρ x /\ all l' end) args).
   { clear H. induction IH as [|x xs Hx _ IHxs]; cbn; intros Hf; [exact I|].
-    apply andb_true_iff in Hf as [H1 H2]. split; auto. }
+    apply andb_true_iff in Hf as [H1 H2]. split; [apply Hx; exact H1|apply IHxs; exact H2]. }
   destruct h; cbn [poly_ok] in H; try discriminate.
   - cbn [wdR]. split; [now apply ALL|exact I].
   - cbn [wdR]. split; [now apply ALL|exact I].
@@ -332,14 +332,11 @@ Lemma acos_parts_sound ρ t n l1 l2 : acos_parts t = Some (n, l1, l2) ->
    -1 <= denR ρ n / (sqrt (denR ρ l1) * sqrt (denR ρ l2)) <= 1 -> wdR ρ t).
 Proof.
   intros H.
-  destruct t as [|?|h args]; try discriminate. destruct h; try discriminate.
-  destruct args as [|[|?|h1 a1] [|]]; try discriminate. destruct h1; try discriminate.
-  destruct a1 as [|[|?|h2 a2] r1]; try discriminate. destruct h2; try discriminate.
-  destruct a2 as [|x1 [|[|q1|] [|]]]; try discriminate.
-  destruct r1 as [|[|?|h3 a3] r2]; try discriminate. destruct h3; try discriminate.
-  destruct a3 as [|x2 [|[|q2|] [|]]]; try discriminate.
-  destruct r2 as [|nn [|]]; try discriminate.
-  cbn [acos_parts] in H.
+  unfold acos_parts in H.
+  repeat match type of H with
+         | context [match ?x with _ => _ end] => is_var x; destruct x; try discriminate H
+         end.
+  match type of H with context [is_q ?a _ _ && is_q ?b _ _] => rename a into q1; rename b into q2 end.
   destruct (is_q q1 (-1) 2) eqn:Q1; [|discriminate]. destruct (is_q q2 (-1) 2) eqn:Q2; [|discriminate].
   cbn [andb] in H. injection H as -> -> ->.
   apply is_q_eq in Q1, Q2. subst q1 q2.
@@ -358,12 +355,10 @@ Proof.
     assert (Hs2 : 0 < sqrt (denR ρ l2)) by now apply sqrt_lt_R0.
     cbn [wdR]. cbn [wd_head map hd0 denR appR fold_right powQ wd_powQ Qden Qnum powZ Pos.to_nat Pos.iter_op Nat.add pow].
     repeat split; try assumption.
-    + replace (/ (sqrt (denR ρ l1) * 1) * (/ (sqrt (denR ρ l2) * 1) * (denR ρ n * 1)))
-        with (denR ρ n / (sqrt (denR ρ l1) * sqrt (denR ρ l2))) by (field; split; lra).
-      apply Hr.
-    + replace (/ (sqrt (denR ρ l1) * 1) * (/ (sqrt (denR ρ l2) * 1) * (denR ρ n * 1)))
-        with (denR ρ n / (sqrt (denR ρ l1) * sqrt (denR ρ l2))) by (field; split; lra).
-      apply Hr.
+    + match goal with |- _ <= ?X => replace X with (denR ρ n / (sqrt (denR ρ l1) * sqrt (denR ρ l2))) end;
+        [apply Hr|]. change (Pos.to_nat 1) with 1%nat. field. split; lra.
+    + match goal with |- ?X <= _ => replace X with (denR ρ n / (sqrt (denR ρ l1) * sqrt (denR ρ l2))) end;
+        [apply Hr|]. change (Pos.to_nat 1) with 1%nat. field. split; lra.
 Qed.
 
 Lemma neg_tree_sound ρ t : (wdR ρ t -> wdR ρ (neg_tree t)) /\ denR ρ (neg_tree t) = - denR ρ t.
